@@ -388,7 +388,7 @@ class Interp:
             return 2.220446049250313e-16
         if p in ("f64::INFINITY",):
             return float("inf")
-        if p in ("u64::MAX",):
+        if p in ("u64::MAX", "usize::MAX"):
             return 2**64 - 1
         if p in ("i64::MAX",):
             return 2**63 - 1
@@ -481,6 +481,9 @@ class Interp:
             sa, sb = _strval(a), _strval(b)
             if sa is not None and sb is not None and op in ("==", "!="):
                 return (sa == sb) if op == "==" else (sa != sb)
+            if sa is not None and sb is not None:
+                ea, eb = sa.encode(), sb.encode()          # str ordering in Rust is byte-wise
+                return {"<": ea < eb, "<=": ea <= eb, ">": ea > eb, ">=": ea >= eb}[op]
             try:
                 if isinstance(a, tuple) and isinstance(b, tuple) and a[:1] == ("enum",) and b[:1] == ("enum",):
                     a, b = a[:3], b[:3]
@@ -727,6 +730,8 @@ class Interp:
             lv = self.lookup(fname)
             if isinstance(lv, dict) and lv.get("k") == "closure":
                 return self.call_closure(lv, args)
+            if isinstance(lv, tuple) and lv[:1] == ("nestedfn",):
+                return self.call_fn_node(lv[1], args)
             if isinstance(lv, tuple) and lv[:1] == ("fnitem",):
                 CURRENT = self
                 r = self.on_call("fn", lv[1], e, args, None) if self.on_call else NotImplemented
@@ -734,6 +739,8 @@ class Interp:
                 if r is not NotImplemented:
                     return r
                 raise Unknown("call of function value %s" % lv[1])
+        if fname and "::" not in fname and getattr(self, "nested_fns", False) and fname in getattr(self, "nested_table", {}) and self.lookup(fname) is None:
+            return self.call_fn_node(self.nested_table[fname], args)      # a sibling nested function (recursion)
         if fname in ("Some", "Ok", "Err"):
             return (fname, args[0] if args else ("tuple", []))
         if self.on_call:
@@ -799,6 +806,9 @@ class Interp:
         sub.strict_try = getattr(self, "strict_try", False)
         sub.fn_items = getattr(self, "fn_items", None)
         sub.string_places = getattr(self, "string_places", False)
+        sub.nested_fns = getattr(self, "nested_fns", False)
+        if hasattr(self, "nested_table"):
+            sub.nested_table = self.nested_table
         sub._inline_depth = depth + 1
         try:
             return sub.block(fnode["body"])
@@ -1580,6 +1590,24 @@ class Interp:
         try:
             last = ("tuple", [])
             stmts = b["stmts"]
+            # items declared in the block are in scope for the whole block: constants are bound to their value, nested
+            # functions become callable by name
+            for s in stmts:
+                if s["k"] == "sitem" and isinstance(s.get("item"), dict):
+                    item = s["item"]
+                    if item.get("k") == "const" and item.get("e") is not None and item.get("name"):
+                        try:
+                            cv = self.eval(item["e"])
+                        except Unknown:
+                            cv = OPAQUE
+                        self.bind(item["name"], cv)
+                        if cv is not OPAQUE and getattr(self, "nested_fns", False):
+                            self.consts[item["name"]] = cv          # visible to the nested functions of this block as well
+                    elif item.get("k") == "fn" and item.get("name") and "sig" in item and getattr(self, "nested_fns", False):
+                        self.bind(item["name"], ("nestedfn", item))
+                        if not hasattr(self, "nested_table"):
+                            self.nested_table = {}
+                        self.nested_table[item["name"]] = item
             for i, s in enumerate(stmts):
                 k = s["k"]
                 if k == "local":
